@@ -4,6 +4,7 @@ EXTENDS RowMerge, RowShapes
 TailShapes == {e \in AllShapes : e.top = 0}
 (* every kind, hosts 0 to 3, equal and different minima and maxima, scaled counts *)
 MCLeaves10 == {e \in TailShapes : e.id \in {1, 3, 4, 7, 8, 9, 11, 13, 15, 24}}
+MCLeaves14 == {e \in TailShapes : e.id \in {1, 3, 4, 7, 8, 9, 10, 11, 13, 15, 16, 21, 24, 29}}
 MCLeaves6  == {e \in TailShapes : e.id \in {3, 7, 8, 9, 13, 24}}
 PrintTables == PrintT(<<"SHAPES", ToJson(ShapeTable)>>)
 ExportMerges == IF merging' THEN PrintT(<<"BEH", ToJson(hist')>>) ELSE TRUE
